@@ -824,6 +824,118 @@ pub fn lig_coordinated_vectors_forgery(rec: &mut Rec) {
     }
 }
 
+/// Hyrax: a COORDINATED pair of openings in one call.  A constructive prover (own implementation of the dot-product
+/// argument from the commitment state, replaying the verifier's challenges) opens p1 to the false value p1(z) + delta
+/// and p2 to its true value such that the first verification equation (13) of the two openings is off by +Com(e) and
+/// -Com(e) with <r, e> = c_1 * delta: every per-opening equation (14) holds, each equation (13) fails, their unweighted
+/// sum holds.  A verifier that checks (13) per opening rejects; one that adds the equations of a call accepts.  Through
+/// `check` and `batch_check`; control: delta = 0, e = 0 is the honest transcript of this prover and is accepted.
+pub fn hyrax_coordinated_pair_forgery(rec: &mut Rec) {
+    use crate::mirror::{convert, MHyraxState};
+    use crate::refm::{inner, naive_msm, naive_mul, ser_unc, tensor_msb};
+    use ark_crypto_primitives::sponge::CryptographicSponge;
+    use ark_ec::CurveGroup;
+    use ark_ff::{Field, Zero};
+    use ark_poly_commit::hyrax::HyraxProof;
+    use ark_poly_commit::{Evaluations, QuerySet};
+    type S = SHyr;
+    for nv in [2usize, 4] {
+        // (members of the call, the member with the false claim, the LATER member that absorbs the defect)
+        for (k, target, partner) in [(2usize, 0usize, 1usize), (3, 0, 1), (3, 0, 2), (3, 1, 2)] {
+            let id = format!("HYR/forge/coordinated-pair/nv={}/members={}/false-member={}/partner={}", nv, k, target, partner);
+            if !rec.take(&id) {
+                continue;
+            }
+            rec.dim("scheme", "HYR");
+            let cfg = KeyCfg::ml(nv);
+            let keys = match build_keys::<S>(&cfg, rec.seed) {
+                Ok(k) => k,
+                Err(_) => continue,
+            };
+            let shapes = <S as Sch>::shapes(&cfg, rec.seed);
+            let polys: Vec<LP<S>> = (0..k).map(|i| lp::<S>(&format!("p{}", i), shapes[shapes.len() - 1 - (i % 2)].1.clone(), None, None)).collect();
+            let c = match commit_set::<S>(&keys, polys, rec.seed, 0) {
+                Ok(c) => c,
+                Err(_) => continue,
+            };
+            let z = <S as Sch>::points(&cfg, rec.seed)[0].1.clone();
+            let dim = 1usize << (nv / 2);
+            let rev: Vec<FrJ> = z.iter().rev().cloned().collect();
+            let l = tensor_msb(&rev[nv / 2..]);
+            let r = tensor_msb(&rev[..nv / 2]);
+            let pos = match r.iter().position(|x| !x.is_zero()) {
+                Some(p) => p,
+                None => continue,
+            };
+            let vk = &keys.vk;
+            let rnd = crate::alpha::rho_stream::<FrJ>(rec.seed, 97, k * (dim + 3));
+            for delta in [FrJ::zero(), FrJ::from(7u64)] {
+                let mut sponge = sponge_pre::<FrJ>(0);
+                let mut proofs: Vec<HyraxProof<GJ>> = Vec::new();
+                let mut values: Vec<FrJ> = Vec::new();
+                let mut e = vec![FrJ::zero(); dim];
+                for i in 0..k {
+                    let st: MHyraxState<FrJ> = convert(&c.states[i]);
+                    let rows = &c.comms[i].commitment().row_coms;
+                    let lt: Vec<FrJ> = (0..dim).map(|j| (0..dim).map(|a| l[a] * st.mat.entries[a][j]).sum()).collect();
+                    let r_lt: FrJ = (0..dim).map(|a| l[a] * st.randomness[a]).sum();
+                    let eval = inner(&lt, &r);
+                    let claimed = if i == target { eval + delta } else { eval };
+                    let o = i * (dim + 3);
+                    let d: Vec<FrJ> = rnd[o..o + dim].to_vec();
+                    let (r_eval, r_d, r_b) = (rnd[o + dim], rnd[o + dim + 1], rnd[o + dim + 2]);
+                    let com_eval = (naive_mul(&vk.com_key[0], &claimed) + naive_mul(&vk.h, &r_eval)).into_affine();
+                    let com_d = (naive_msm(&vk.com_key[..dim], &d) + naive_mul(&vk.h, &r_d)).into_affine();
+                    // the later member knows <r, e> (fixed after the target's challenge) and hides it in com_b
+                    let beta = inner(&r, &d) - if i == partner { inner(&r, &e) } else { FrJ::zero() };
+                    let com_b = (naive_mul(&vk.com_key[0], &beta) + naive_mul(&vk.h, &r_b)).into_affine();
+                    let mut b = Vec::new();
+                    ser_unc(vk, &mut b);
+                    sponge.absorb(&b);
+                    let mut b = Vec::new();
+                    ser_unc(rows, &mut b);
+                    sponge.absorb(&b);
+                    sponge.absorb(&z);
+                    for g in [&com_eval, &com_d, &com_b] {
+                        let mut b = Vec::new();
+                        ser_unc(g, &mut b);
+                        sponge.absorb(&b);
+                    }
+                    let ch: FrJ = sponge.squeeze_field_elements(1)[0];
+                    if i == target {
+                        // <r, e> = c * delta makes equation (14) of the false claim hold
+                        e[pos] = ch * delta * r[pos].inverse().unwrap();
+                    }
+                    let sign = if i == target { FrJ::from(1u64) } else if i == partner { -FrJ::from(1u64) } else { FrJ::zero() };
+                    let zz: Vec<FrJ> = (0..dim).map(|j| d[j] + ch * lt[j] + sign * e[j]).collect();
+                    proofs.push(HyraxProof { com_eval, com_d, com_b, z: zz, z_d: ch * r_lt + r_d, z_b: ch * r_eval + r_b, r_eval });
+                    values.push(claimed);
+                }
+                let comms: Vec<&LCm<S>> = c.comms.iter().collect();
+                let d1 = check_single::<S>(&keys, &comms, &z, &values, &proofs, 0, rec.seed, 0);
+                let mut qs = QuerySet::new();
+                let mut ev = Evaluations::new();
+                for i in 0..k {
+                    qs.insert((format!("p{}", i), ("z".to_string(), z.clone())));
+                    ev.insert((format!("p{}", i), z.clone()), values[i]);
+                }
+                let bp: BPf<S> = vec![proofs.clone()].into();
+                let d2 = check_batch::<S>(&keys, &comms, &qs, &ev, &bp, 0, rec.seed, 0);
+                if delta.is_zero() {
+                    rec.count_points(1);
+                    rec.class("control-constructive-prover");
+                    if !d1.accepted() || !d2.accepted() {
+                        rec.violation("C03/HYR/check/constructive-honest-proof-refused", &id, format!("the honest transcript of the constructive Hyrax prover is refused: check {} / batch_check {}", d1.short(), d2.short()));
+                    }
+                } else {
+                    expect_reject(rec, &d1, "HYR", "check", "forged:coordinated-pair-of-openings", &id, format!("member {} claims its value + 7, member {} absorbs the defect of equation (13)", target, partner));
+                    expect_reject(rec, &d2, "HYR", "batch_check", "forged:coordinated-pair-of-openings", &id, format!("member {} claims its value + 7, member {} absorbs the defect of equation (13)", target, partner));
+                }
+            }
+        }
+    }
+}
+
 pub fn run(rec: &mut Rec) {
     let (w, ms) = if rec.thorough() { (Width::Wide, 3) } else { (Width::Medium, 2) };
     crate::for_each_scheme!(S, {
@@ -834,6 +946,7 @@ pub fn run(rec: &mut Rec) {
     ipa_padded_forgery(rec);
     ipa_unbound_hiding_forgery(rec);
     hyrax_stretched_z_forgery(rec);
+    hyrax_coordinated_pair_forgery(rec);
     lig_vanishing_forgery(rec);
     lig_coordinated_vectors_forgery(rec);
     // proofs of the library's own prover against the values at rearranged points (hypercube and near it)
